@@ -10,10 +10,11 @@ CONSTANTS
   RSizes = {"one", "small", "big"}
   Concurrent = TRUE
   AtomicFrames = TRUE
+  LimitOnlyOnReaderPath = FALSE
   Gen = FALSE
   Emit = FALSE
 INIT Init
 NEXT Next
 VIEW view
-INVARIANTS TypeOK FramesAtomic WritesAccepted InOrderPrefix NoForeignKnown EofComplete DoneComplete ReaderAllocBound
+INVARIANTS TypeOK FramesAtomic WritesAccepted InOrderPrefix NoForeignKnown EofComplete DoneComplete ReaderAllocBound DecoderBounded EntriesAgree
 CHECK_DEADLOCK FALSE
